@@ -338,8 +338,11 @@ def gen_minimize_case(rng, prof: dict | None = None) -> dict:
     pop = 10 + 2 * d
     budget = p.get("budget") or rng.choice(["maxfun", "maxfun", "maxiter"])
     maxfun = maxiter = None
-    if budget == "maxfun":
+    if budget in ("maxfun", "both"):
         maxfun = rng.choice([1, 2, 5, pop - 1, pop, pop + 1, 2 * pop + 3, rng.randint(30, 400), rng.randint(100, 1500)])
+        if budget == "both":
+            # both limits given: maxfun stays a hard budget whatever maxiter says
+            maxiter = rng.choice([2, 4, 8, 30, 1000])
     else:
         maxiter = rng.randint(1, 5)
     desc = {
